@@ -55,13 +55,26 @@ P = "XalanModel.Props.C07."
 THEOREMS = [P + t for t in (
     "noninterference", "noninterference_readonly", "interleaving_eq_sequential", "sequential_is_solo", "race_free",
     "execution_readonly_partial", "tableMachine_writesOnlySync", "table_race_free_partial",
-    "table_outputs_schedule_independent", "lazy_listhead_counterexample", "lazy_listhead_interference_counterexample",
-    "forced_listhead_schedule_independent", "nopool_counterexample", "mapping_mode_counterexample")]
+    "table_outputs_schedule_independent", "lazy_listhead_interference_counterexample",
+    "forced_listhead_schedule_independent", "nullhead_schedule_independent", "nopool_counterexample", "mapping_mode_counterexample")]
 
-SAFE_MODES = ["default", "xerces-ts"]            # inside the property's quantifier
-# outside it: the model predicts races (xerces-default = what XalanTransformer::parseSource(.., useXercesDOM=true) builds)
-CONTROL_MODES = ["xerces-nopool", "xerces-default", "xerces-mapping"]
-TIMEOUT = 600
+# inside the property's quantifier: native source tree; a caller's Xerces DOM wrapped in thread-safe mode
+# (XercesDOMWrapperParsedSource); and what XalanTransformer::parseSource(.., useXercesDOM=true) builds (XercesDOMParsedSource:
+# the documentation promises that parsed sources can be shared, so it has to be thread-safe mode too)
+SAFE_MODES = ["default", "xerces-ts", "xerces-default"]
+# outside it (XercesParserLiaison used directly with setThreadSafe(false) / setBuildWrapperNodes(false)): the model predicts races
+CONTROL_MODES = ["xerces-nopool", "xerces-mapping"]
+TIMEOUT = 300
+
+
+def setup():
+    """Pre-build what the quick tier needs and what is expensive the first time: the ThreadSanitizer build of the working
+    tree (~5 min cold, incremental afterwards), the normal build, both harness binaries.  Called by `./check --setup`."""
+    common.build_repo("tsan")
+    common.build_repo("hooks")
+    common.build_harness("c07_threads", ["c07_threads.cpp"], flavor="tsan")
+    common.build_harness("c07_threads", ["c07_threads.cpp"], flavor="hooks", sanitize=False)
+    return 0
 
 
 # ---------------------------------------------------------------------------------------------- TSan report parsing
@@ -256,12 +269,15 @@ def write_case_files(workdir, r, nsheets, nsources):
         open(p, "w", encoding="utf-8").write(gen.stylesheet(r, fac))
         sheets[sid] = {"facilities": fac, "path": p}
     # every facility alone (systematic part: each is met cold, by itself, on every kind of source, in every run)
-    for i, f in enumerate(gen.FACILITIES + ["error"]):
+    for i, f in enumerate(gen.FACILITIES + gen.ERROR_FACILITIES):
         sid = "f%d" % i
         p = os.path.join(workdir, "%s.xsl" % sid)
         open(p, "w", encoding="utf-8").write(gen.stylesheet(r, [f]))
         sheets[sid] = {"facilities": [f], "path": p, "single": True}
     flavours = {}
+    p = os.path.join(workdir, "bare0.xml")
+    open(p, "w", encoding="utf-8").write(gen.BARE)
+    flavours["bare0"] = ("bare", p)
     for i in range(nsources):
         for fl in ("ids", "plain"):
             name = "%s%d" % (fl, i)
@@ -325,6 +341,14 @@ def run(ctx):
     tsan_bd = ctx.build("tsan")
     ctx.build("hooks")
     ctx.translate("c07_share")
+    if ctx.thorough:
+        # AST-level cross-check of the regex inventory (clang++-14 JSON AST of every reachable class: mutable fields,
+        # const_cast expressions and static locals in its member functions)
+        rc, out = common.sh([os.sys.executable, os.path.join(common.ROOT, "translate", "_c07_ast.py")], cwd=common.ROOT, timeout=3000)
+        ctx.oblige("translator cross-check: clang AST agrees with the regex table on mutable members, const_casts and static "
+                   "locals of every reachable class", "translator", rc == 0, out[-3000:])
+        ctx.extra["ast_crosscheck"] = out.strip().split("\n")[0][:200]
+        ctx.checker_cmds.append("python3 translate/_c07_ast.py")
     ctx.lean("XalanModel.Props.C07", THEOREMS, extra_targets=["xm_c07"])
     model = ctx.exe("xm_c07")
     h_tsan = common.build_harness("c07_threads", ["c07_threads.cpp"], flavor="tsan")
@@ -379,7 +403,7 @@ def run(ctx):
             runs.append(("k_" + sid, ["%s:%s:%s" % (sid, src, c["kind"])]))
     for sid, sh in sheets.items():
         if sh.get("single"):
-            runs.append(("f_" + sid, ["%s:%s0.%s:b" % (sid, fl, m) for fl in ("ids", "plain") for m in SAFE_MODES]))
+            runs.append(("f_" + sid, ["%s:%s0.%s:b" % (sid, fl, m) for fl in ("ids", "plain", "bare") for m in SAFE_MODES]))
     gsheets = [s for s in sheets if s.startswith("s")]
     for i in range(nruns):
         nj = r.range(1, 4)
@@ -497,7 +521,8 @@ def run(ctx):
                     seen_keys[k]["count"] += 1
                     continue
                 found = None
-                for label, jobs in ch["runs"]:
+                # shrinking costs one harness run per job: do it for the first few distinct reports only
+                for label, jobs in (ch["runs"] if len(seen_keys) < 3 else []):
                     for j in jobs:
                         reps2, o2, e2, rc2 = single_job_reports(j, nt, rd, tag + "_shrink")
                         for r2 in reps2:
@@ -508,10 +533,12 @@ def run(ctx):
                             break
                     if found:
                         break
+                modes = sorted(set(sources[j.split(":")[1]]["mode"] for _, js in ch["runs"] for j in js))
                 if found:
                     label, j, r2 = found
                     inp = case_input(sheets, sources, run_line("x", [j], nt, rd), [j], work)
                     rep = r2
+                    modes = [sources[j.split(":")[1]]["mode"]]
                 else:
                     alljobs = [j for _, js in ch["runs"] for j in js]
                     inp = case_input(sheets, sources, "\n".join(run_line(l, js, nt, rd) for l, js in ch["runs"]), alljobs, work)
@@ -519,7 +546,7 @@ def run(ctx):
                 tl = model_lines(ctx, model, ["touch " + f for f in fns[:12]])
                 known_to_model = [l for l in tl if l.startswith("touch ") and not l.startswith("touch 0")]
                 seen_keys[k] = {"count": 1}
-                ctx.fail(k, "ThreadSanitizer: %s while threads shared a compiled stylesheet / parsed source in a mode the model "
+                ctx.fail(k + " mode=" + "+".join(modes), "ThreadSanitizer: %s while threads shared a compiled stylesheet / parsed source in a mode the model "
                             "calls safe. model on the stack's functions: %s\n%s" % (rep["kind"], "; ".join(known_to_model)[:600] or "no table entry mentions them", rep["raw"][:3500]),
                          inp, build="tsan", report=rep["raw"][:6000])
 
